@@ -16,5 +16,6 @@ Extraction "writer_model.ml"
   cfg_of_options eff_batchSize eff_batchBytes eff_maxAttempts eff_batchTimeoutMs eff_backoffMinMs
   eff_backoffMaxMs eff_readTimeoutMs eff_writeTimeoutMs
   produce_deadline_ms metadata_deadline_ms timed_reaction deadline_err
+  span_ok batches_by_deadline transport_of_writer_config
   retriable_spec no_early_giveup_holds options_of_writer_config acks_of_writer_config cfg_of_writer_config
   Z.of_N.  (* Z.of_N also so that the shared ocaml/kvio.ml.in finds the type z *)
